@@ -33,7 +33,10 @@ type c16Scenario struct {
 	CloseErr bool      `json:"close_error"`
 	// SlowBody: the members' readers have no data at hand: Read blocks until the reader is closed or
 	// its member context is cancelled (a network body). The caller does not read in these scenarios.
-	SlowBody bool    `json:"slow_body,omitempty"`
+	SlowBody bool `json:"slow_body,omitempty"`
+	// Caller: "" = a context the caller can cancel; "background" = context.Background(); "value" = a value
+	// context on top of it: contexts that can never be cancelled by the caller (Done() == nil)
+	Caller   string  `json:"caller_context,omitempty"`
 	Schedule []int32 `json:"schedule,omitempty"`
 }
 
@@ -140,6 +143,12 @@ func (st *c16State) member(ctx context.Context, i int) (ok bool) {
 		}
 	}
 	switch script {
+	case "Fu":
+		st.failErr[i] = ociregistry.ErrUnauthorized // failures of every flavour are failures: the other member may still succeed
+	case "Fn":
+		st.failErr[i] = fmt.Errorf("member says no: %w", ociregistry.ErrDenied)
+	case "Fh":
+		st.failErr[i] = ociregistry.NewHTTPError(ociregistry.ErrUnauthorized, 401, nil, nil)
 	case "Fc":
 		st.failErr[i] = context.Canceled // the member failed for reasons of its own (e.g. an upstream fetch it aborted)
 	case "Fd":
@@ -205,6 +214,13 @@ func (st *c16State) body(s *vsched.Sched) {
 	sc := st.sc
 	u := ociunify.New(st.funcs(0), st.funcs(1), &ociunify.Options{ReadPolicy: ociunify.ReadConcurrent})
 	ctx, cancel := context.WithCancel(context.Background())
+	switch sc.Caller {
+	case "background":
+		ctx, cancel = context.Background(), func() {}
+	case "value":
+		type k struct{}
+		ctx, cancel = context.WithValue(context.Background(), k{}, 1), func() {}
+	}
 	if sc.Cancel {
 		s.Go("canceller", func() {
 			st.callerCancelled = true
@@ -351,6 +367,35 @@ func c16Scenarios(thorough bool) []c16Scenario {
 							out = append(out, sc)
 						}
 					}
+				}
+			}
+		}
+	}
+	for _, e := range []string{"GetBlob", "GetBlobRange", "GetManifest", "ResolveBlob", "ResolveManifest"} {
+		// failures of particular flavours (authentication, authorisation, an HTTP 401) answering in either order
+		for _, f := range []string{"Fu", "Fn", "Fh"} {
+			for _, o := range []string{"S", "HS", "BS", "F"} {
+				for _, pair := range [][2]string{{f, o}, {o, f}} {
+					sc := c16Scenario{Entry: e, Scripts: pair, Cancel: o == "BS"}
+					out = append(out, sc)
+					if o != "BS" {
+						sc.Cancel = true
+						out = append(out, sc)
+					}
+				}
+			}
+		}
+		// callers that can never cancel: everything the unifier must cancel itself still gets cancelled
+		for _, caller := range []string{"background", "value"} {
+			for _, pair := range [][2]string{{"S", "S"}, {"S", "F"}, {"F", "S"}, {"F", "F"}, {"S", "HS"}, {"HS", "S"}, {"HS", "HS"}, {"Fc", "S"}, {"S", "Fd"}} {
+				// (members that return only once their context is cancelled are left out here: the unifier
+				// cancels a losing member's context only after that member has returned, so with a caller
+				// that never cancels such a member never returns - outside "once both members have returned")
+				sc := c16Scenario{Entry: e, Scripts: pair, Caller: caller}
+				out = append(out, sc)
+				if strings.HasPrefix(e, "Get") && pair[0] == "S" && pair[1] == "S" {
+					sc.SlowBody = true
+					out = append(out, sc)
 				}
 			}
 		}
